@@ -186,7 +186,7 @@ mutual
       match cx.style with
       | .shortCircuit =>
         if e.isEmpty then [.and_ (.cond c) b]
-        else [.or_ (.and_ (.cond c) (.or_ b .one)) o]
+        else [.or_ (.and_ (.cond c) (.seqList [b])) o]
       | .ifExpr => [.ifExp (.cond c) b o]
     | .whl c body els =>
       let l : LCtx := { id := c, isWhile := true, used := guardsInL .loop body }
